@@ -438,11 +438,29 @@ class TypeTag:
 
 
 class SuperProxy:
+    """zero-argument super() inside a method: attribute lookup starts at the bases of the defining class"""
+
     def __init__(self, I):
         fn = I.fn_stack[-1]
+        env = I.env_stack[-1]
         self.cls = fn.cls
-        # self object is the first parameter of the running method
+        a = fn.node.args
+        params = [p.arg for p in a.posonlyargs + a.args]
+        self.obj = env.vars[params[0]] if params else None
         self.I = I
+
+    def py_getattr(self, I, name):
+        from .interp import ClassRef, NOTFOUND, BoundMethod, Builtin
+        if self.cls is None:
+            raise PyRaise("RuntimeError", "super(): no class")
+        for b in self.cls.bases:
+            if isinstance(b, ClassRef):
+                v = b.lookup(name)
+                if v is not NOTFOUND:
+                    return I.bind(v, self.obj, b)
+        if name == "__init__":
+            return Builtin("object.__init__", lambda I_, a, k: None)
+        raise PyRaise("AttributeError", f"'super' object has no attribute '{name}'")
 
 
 class ZipView:
